@@ -141,7 +141,13 @@ func runC11(r *Run) {
 				if ci.Name == "DeleteDenom" {
 					return true
 				}
-				return ci.Name == "UpdateDenomPeriods" && errHandled(ci.Instr) && fromSplit(argN(ci.Instr, 2), 0)
+				// the stored remainder is the split's first result itself (not a rewritten copy: period lengths are
+				// relative, so merging or dropping elapsed entries moves every later release)
+				direct := false
+				if e, ok := stripValue(argN(ci.Instr, 2)).(*ssa.Extract); ok && split != nil && e.Tuple == ssa.Value(split) && e.Index == 0 {
+					direct = true
+				}
+				return ci.Name == "UpdateDenomPeriods" && errHandled(ci.Instr) && direct
 			}},
 			{"SendCoinsFromModuleToAccount(original denom, msg.Amount.Amount → redeemTo)", func(ci CallInfo) bool {
 				if ci.Name != "SendCoinsFromModuleToAccount" || !errHandled(ci.Instr) || !isMod(argN(ci.Instr, 1)) {
